@@ -82,3 +82,51 @@ Example empty_value_as_nil_refuted :
   exists s x, binary_string_eval SEq (row_eval_string_empty_is_nil (Some x)) (Some (parse_zql_string (literal_full s)))
               <> str_eqb x s.
 Proof. exists [], []. vm_compute. discriminate. Qed.
+
+(* ---- filters with several comparisons (Lang/StrFilter.v) ---- *)
+From Storage Require Import Lang.StrFilter.
+
+Definition lit_a : str := literal_full [97].                                   (* "a" *)
+Definition tok_icontains : str := [105; 99; 111; 110; 116; 97; 105; 110; 115]. (* icontains *)
+Definition row_named (n : str) : row := mkRow (Some n) None [n] [n].
+
+(*  name = "a" and name icontains "a"  selects the row named a and not the row named A;
+    not isEmpty(from peers where name = "a") or anyOf(tags) icontains "a"  selects both *)
+Definition f_eq_and_icontains : filter atom :=
+  FAnd (FAtom (LField FName) (ACmp SEq lit_a)) (FAtom (LField FName) (AIContains tok_icontains lit_a)).
+Definition f_sub_or_set : filter atom :=
+  FOr (FSub SubNotEmpty (FAtom (LField FName) (ACmp SEq lit_a))) (FAtom LAnyTags (AIContains tok_icontains lit_a)).
+
+Example repeated_literal_filters :
+  filter_query f_eq_and_icontains (row_named [97]) = true /\
+  filter_query f_eq_and_icontains (row_named [65]) = false /\
+  filter_query f_sub_or_set (row_named [97]) = true /\
+  filter_query f_sub_or_set (row_named [65]) = true /\
+  filter_query f_sub_or_set (row_named [98]) = false /\
+  f_eq_and_icontains = fmap (write_atom literal_full) (FAnd (FAtom (LField FName) (VCmp SEq [97]))
+                                                            (FAtom (LField FName) (VIContains false [97]))).
+Proof. vm_compute. repeat split. Qed.
+
+(* A reading that is NOT the code's and does not satisfy the property: the listener keeps one constant node per
+   literal token text and the typing of icontains upper-cases its operand node in place.  The literal of the
+   equality then denotes A: the filter is no longer the conjunction of its comparisons *)
+Example shared_constants_refuted :
+  exists f r, filter_query_shared_consts f r <> eval_filter atom_pred atom_target f r.
+Proof. exists f_eq_and_icontains, (row_named [97]). vm_compute. discriminate. Qed.
+
+(* ... while with differently spelled literals that reading is indistinguishable from the code's *)
+Example shared_constants_needs_a_repeated_literal :
+  filter_query_shared_consts
+    (FAnd (FAtom (LField FName) (ACmp SEq lit_a)) (FAtom (LField FName) (AIContains tok_icontains (literal_full [65]))))
+    (row_named [97]) = true.
+Proof. vm_compute. reflexivity. Qed.
+
+(* the nodes of an in-list are shared in the same way under that reading *)
+Example shared_constants_in_list_refuted :
+  filter_query_shared_consts
+    (FAnd (FAtom (LField FName) (AIn tok_in [literal_full [98]; lit_a])) (FAtom (LField FDescr) (AIContains tok_icontains lit_a)))
+    (mkRow (Some [97]) (Some [97]) [] []) = false /\
+  filter_query
+    (FAnd (FAtom (LField FName) (AIn tok_in [literal_full [98]; lit_a])) (FAtom (LField FDescr) (AIContains tok_icontains lit_a)))
+    (mkRow (Some [97]) (Some [97]) [] []) = true.
+Proof. vm_compute. split; reflexivity. Qed.
